@@ -234,7 +234,7 @@ Proof.
   destruct (level =? lz4block_Fast) eqn:E.
   - exact (fast_contract (fun _ => 0) src dstlen Hb).
   - assert (Hd : 0 <= level <= 131072) by (destruct Hl as [Hl|Hl]; [unfold lz4block_Fast in *; lia|lia]).
-    exact (hc_contract level Hd src dstlen Hb).
+    exact (hc_contract level (proj1 Hd) src dstlen Hb).
 Qed.
 
 (* the word and the payload of one block *)
